@@ -360,7 +360,15 @@ func (fa *foldAnalysis) call(c *ssa.Call, fn *ssa.Function, isRaw func(ssa.Value
 		case "append", "copy", "min", "max":
 			return anyRaw
 		case "len", "cap":
-			return false // length taken as case-invariant (stated assumption)
+			// the byte length of a string is NOT invariant under case folding (the Kelvin sign
+			// U+212A is three bytes, its lower case "k" one): a length taken of raw-case text is an
+			// observation of it
+			if anyRaw && bi.Name() == "len" {
+				if _, isStr := com.Args[0].Type().Underlying().(*types.Basic); isStr && !onlyEmptinessTest(c) {
+					viol(c, "the byte length of raw-case text is taken (lengths change under case folding, e.g. U+212A)")
+				}
+			}
+			return false
 		}
 		return false
 	}
@@ -813,4 +821,44 @@ func init() {
 		}
 		return []*StaticResult{r}, nil
 	}
+}
+
+
+// onlyEmptinessTest: every use of the length is a comparison with the constant 0 (len(s) == 0,
+// != 0, > 0) - emptiness is invariant under case folding, the length is not.
+func onlyEmptinessTest(c *ssa.Call) bool {
+	refs := c.Referrers()
+	if refs == nil || len(*refs) == 0 {
+		return false
+	}
+	for _, r := range *refs {
+		if _, dbg := r.(*ssa.DebugRef); dbg {
+			continue
+		}
+		b, ok := r.(*ssa.BinOp)
+		if !ok {
+			return false
+		}
+		isZero := func(v ssa.Value) bool {
+			k, ok := v.(*ssa.Const)
+			return ok && k.Value != nil && k.Value.ExactString() == "0"
+		}
+		switch b.Op {
+		case token.EQL, token.NEQ:
+			if !(isZero(b.X) || isZero(b.Y)) {
+				return false
+			}
+		case token.GTR: // len(s) > 0
+			if !(b.X == ssa.Value(c) && isZero(b.Y)) {
+				return false
+			}
+		case token.LSS: // 0 < len(s)
+			if !(b.Y == ssa.Value(c) && isZero(b.X)) {
+				return false
+			}
+		default:
+			return false
+		}
+	}
+	return true
 }
